@@ -540,7 +540,7 @@ func TestRTMembership(t *testing.T) {
 	r := rand.New(rand.NewSource(e.Seed))
 	nSmall, maxPer, nLarge := 30, 40, 250
 	if e.Tier == "thorough" {
-		nSmall, maxPer, nLarge = 300, 300, 5000
+		nSmall, maxPer, nLarge = 300, 300, 1200
 	}
 	if e.Budget > 0 {
 		nSmall, nLarge = e.Budget, e.Budget
